@@ -43,7 +43,7 @@ MInit ==
   /\ leftover = [i \in XS |-> 0] /\ unseen = [i \in XS |-> 0] /\ stalled = [i \in XS |-> FALSE]
   /\ reqRecs = [i \in XS |-> 0] /\ respRecs = [i \in XS |-> 0]
   /\ reqBlock = [i \in XS |-> <<>>] /\ respBlock = [i \in XS |-> <<>>]
-  /\ linked = [i \in XS |-> FALSE] /\ warcDone = FALSE
+  /\ linked = [i \in XS |-> FALSE] /\ warcDone = FALSE /\ fresh = [i \in XS |-> TRUE]
   /\ reqId = [i \in XS |-> ""] /\ stray = 0 /\ pairs = [i \in XS |-> <<0, 0, 0, 0>>]
   /\ respType = [i \in XS |-> ""] /\ warcBad = FALSE
 
@@ -60,6 +60,7 @@ MNext ==
          rx == IF k = "rec" THEN XOfUri(e.uri) ELSE 0
      IN
      /\ reqRecorded' = IF k = "req" /\ ex > 0 THEN [reqRecorded EXCEPT ![ex] = @ \o e.data] ELSE reqRecorded
+     /\ fresh'       = IF k = "req" /\ ex > 0 /\ "new" \in DOMAIN e THEN [fresh EXCEPT ![ex] = e.new] ELSE fresh
      /\ recorded'    = IF k = "rd" /\ ex > 0 THEN [recorded EXCEPT ![ex] = @ \o e.data] ELSE recorded
      /\ delivered'   = IF k = "dl" /\ ex > 0 THEN [delivered EXCEPT ![ex] = @ \o e.data] ELSE delivered
      /\ stalled'     = IF k = "stall" /\ ex > 0 THEN [stalled EXCEPT ![ex] = TRUE] ELSE stalled
